@@ -229,6 +229,62 @@ def lowered_history(seed, model, rep):
         repo.done()
 
 
+def big_history(seed, model, rep):
+    """dozens of targets: the result document is far larger than any I/O buffer; a second run started
+    while the first one is executing is refused and changes nothing"""
+    rng = scen.Rng(seed)
+    n = rng.range(60, 90)
+    targets = [{"path": "svc/t%03d" % i} for i in range(n)]
+    repo = scen.Repo(targets, max_retained_runs=3, git=False)
+    case = {"seed": seed, "mode": "big", "targets": n}
+    try:
+        for t in targets:
+            repo.install(t["path"], "build")
+        for step in range(5):
+            body = ("big run %d\n" % step).encode()
+            repo.set_plan({"build|*": {"steps": [[0, 1, body.hex()]]}})
+            args = ["run", "-c", "build"] + (["-t", "svc/t000"] if step % 2 == 0 else [])
+            rc, j, out, err = repo.mono(*args, timeout=120)
+            rep.evaluations += 1
+            rc2, j2, out2, err2 = repo.mono("result", "show")
+            if rc != 0 or rc2 != 0 or storeobs.canon_doc(j2) != storeobs.canon_doc(j):
+                rep.oracle_fail({"kind": "store read APIs disagree with the history", "case": case, "after_run": step + 1,
+                                 "what": "result show is not the document of the most recent run", "document_bytes": len(out),
+                                 "run_rc": rc, "show_rc": rc2, "stderr": err2[-300:]})
+                return
+        # overlap: A executes (slowly), B is started meanwhile
+        body_a = b"run A\n"
+        repo.set_plan({"build|*": {"sleep_ms": 1200, "steps": [[0, 1, body_a.hex()]]}})
+        pa = repo.popen(["run", "-c", "build", "-t", "svc/t001"])
+        time.sleep(0.45)
+        repo_b_rc, jb, outb, errb = repo.mono("run", "-c", "build", "-t", "svc/t002")
+        outa, erra = pa.communicate(timeout=60)
+        rep.evaluations += 1
+        rep.count("overlapping_runs")
+        ja = None
+        try:
+            import json as _j
+            ja = _j.loads(outa.decode().strip().split("\n")[-1])
+        except ValueError:
+            pass
+        obs = storeobs.show_all(repo, 3)
+        if pa.returncode != 0 or ja is None:
+            rep.count("overlap_inconclusive")
+        elif repo_b_rc == 0:
+            rep.oracle_fail({"kind": "store read APIs disagree with the history", "case": case,
+                             "what": "a run started while another run of the same repository was executing was not refused",
+                             "result_is_A": obs["result"] == storeobs.canon_doc(ja)})
+            return
+        elif obs["result"] != storeobs.canon_doc(ja) or (obs["logs"] or {}).get(("stdout", "svc/t001", "build")) != body_a:
+            rep.oracle_fail({"kind": "store read APIs disagree with the history", "case": case,
+                             "what": "after an overlapping (refused) run, result show / log show are not those of the completed run"})
+            return
+        rep.count("big_histories")
+        rep.nontrivial_case(case)
+    finally:
+        repo.done()
+
+
 def main():
     args = scen.parse_args(sys.argv)
     t0 = time.time()
@@ -250,6 +306,8 @@ def main():
         lowered += [{"seed": rng.next(), "mode": "lowered"} for _ in range((10 if args["tier"] == "thorough" else 2) * args["budget"])]
     scen.run_cases(lambda c: history(c["seed"], c["max"], c["length"], model, rep), cases, rep, 8)
     scen.run_cases(lambda c: lowered_history(c["seed"], model, rep), lowered, rep, 4)
+    if args["budget"] > 0:
+        scen.run_cases(lambda sd: big_history(sd, model, rep), [rng.next() for _ in range(4 if args["tier"] == "thorough" else 1)], rep, 2)
     scen.finish(args, rep, t0, model)
 
 
